@@ -78,6 +78,8 @@ ObsInit == [
   \* ---- lifecycle ------------------------------------------------------------
   phase    |-> "init",                    \* position in the bracket grammar of lifecycle callbacks (C11)
   auto     |-> FALSE,                     \* automatic checkpointing (final save in Close)
+  finite   |-> FALSE,                     \* dcp.mode finite
+  latest   |-> FALSE,                     \* checkpoint.autoReset = latest
   minfo    |-> <<1, 1>>,                  \* membership most recently announced
   nbursts  |-> 0, ncycles |-> 0, burstOpen |-> FALSE,
   ended    |-> {},                        \* assigned vBuckets whose stream ended for good (C12)
@@ -104,7 +106,7 @@ Unconfirmed(o) == {v \in VB : o.adv[v] > o.conf[v]}
 (* one clause per observable event                                          *)
 
 ApBoot(o, e) ==
-  [o EXCEPT !.phase = "init", !.auto = e.auto, !.minfo = <<e.member, e.total>>, !.nbursts = 0, !.ncycles = 0,
+  [o EXCEPT !.phase = "init", !.auto = e.auto, !.finite = e.finite, !.minfo = <<e.member, e.total>>, !.nbursts = 0, !.ncycles = 0,
             !.burstOpen = FALSE, !.ended = {}, !.reopen = {}, !.closeCalled = FALSE, !.closeReturned = FALSE,
             !.stoppedSeen = FALSE, !.closereq = {}, !.high = [v \in VB |-> 0 - 1],
             !.up = TRUE, !.boots = @ + 1, !.saves = {}, !.closing = FALSE, !.mustdie = FALSE,
@@ -128,7 +130,7 @@ ApSeqNos(o, e) ==
   IF ~e.ok THEN [o EXCEPT !.mustdie = TRUE]
   ELSE LET latest == e.latest /\ \A v \in o.range : o.store[v] = NoOff
            ahead == ~latest /\ \E v \in o.range : o.store[v] # NoOff /\ o.store[v].seq > e.high[v]
-       IN [o EXCEPT !.high = e.high, !.mustdie = ahead]
+       IN [o EXCEPT !.high = e.high, !.mustdie = ahead, !.latest = e.latest]
 
 \* a start-up query failed (metadata.Load, failover log)
 ApFail(o, e) == [o EXCEPT !.mustdie = TRUE]
@@ -156,7 +158,16 @@ ApOpenReq(o, e) ==
             ELSE o3
       o5 == Check(o4, o.high[v] < 0 \/ e.off.seq <= o.high[v], "C15",
                   "stream requested from a position the server has not reached")
-  IN  Check(o5, ~o.mustdie, "C15", "start-up went on after a failed query or an inconsistent checkpoint")
+      \* C02: what a session's first request for v must carry
+      noneStored == \A w \in o.range : o.store[w] = NoOff
+      wantSeq == IF o.store[v] # NoOff THEN o.store[v].seq ELSE IF o.latest /\ noneStored THEN o.high[v] ELSE 0
+      exact == IF o.store[v] # NoOff THEN e.off = o.store[v]
+               ELSE IF o.latest /\ noneStored THEN e.off.seq = o.high[v] /\ e.off.ss = o.high[v] /\ e.off.se = o.high[v]
+               ELSE e.off = ZeroOff
+      o6 == IF isReopen \/ o.high[v] < 0 THEN o5
+            ELSE Check(Check(o5, exact, "C02", "stream requested with something else than the persisted checkpoint / auto-reset position"),
+                       e.end = (IF o.finite THEN o.high[v] ELSE MAXSEQ), "C02", "requested end is not what the dcp mode prescribes")
+  IN  Check(o6, ~o.mustdie, "C15", "start-up went on after a failed query or an inconsistent checkpoint")
 
 \* the server's answer: e.uuid = first failover entry; e.rollback = TRUE when the stream was
 \* opened after a rollback to e.r (then e.f = position the client had reached)
@@ -226,8 +237,9 @@ ApTrack(o, e) ==
   LET v == e.vb
       o1 == Check(o, e.off \in o.origin[v] /\ ValidOff(e.off), "C06", "tracked offset is torn or never issued")
       o2 == Check(o1, ~o.mustdie, "C06", "event outside its snapshot moved the position")
-  IN  Check(o2, v \in o.range /\ e.off.seq = MaxOf(o.sess[v] \cup {e.off.seq}) /\ e.off.seq \in o.sess[v],
-            "C04", "tracked position is not the furthest settled one")
+  IN  IF o.closing THEN o2      \* no session: an acknowledgement lands in the maps that the next Load replaces
+      ELSE Check(o2, v \in o.range /\ e.off.seq = MaxOf(o.sess[v] \cup {e.off.seq}) /\ e.off.seq \in o.sess[v],
+                 "C04", "tracked position is not the furthest settled one")
 
 \* the consumer invoked Ack of the context that carried e.off for e.vb
 \* (the monitor sees it before the library does)
